@@ -344,6 +344,56 @@ theorem args_order (E : Env σ) (forget : σ → σ) (hE : EnvStable E forget) (
     RunS E forget sched (flatten body) (flatten body) st none false 0 (E.call f (E.call g (E.act evalArg st))) :=
   flatten_correct E forget hE sched _ (.seqN .act (.seqN .call .call)) (.inl rfl) hst
 
+/-- a simple statement as a statement -/
+def simpleStmt : Simple → Stmt
+  | .none => .skip
+  | .act a => .act a
+  | .call f => .call f
+
+/-- `f(e₁, …, eₙ)` after hoisting: every argument evaluation in source order (an action, or a call that may suspend),
+    then the call -/
+def argsBody (args : List Simple) (f : Nat) : Stmt :=
+  args.foldr (fun a s => .seq (simpleStmt a) s) (.call f)
+
+/-- Go: operands are evaluated in lexical left-to-right order -/
+def evalArgs (E : Env σ) (args : List Simple) (st : σ) : σ := args.foldl (fun s a => evalSimple E a s) st
+
+theorem argsBody_eval (E : Env σ) (f : Nat) : ∀ (args : List Simple) (st : σ),
+    Eval E (argsBody args f) st .normal (E.call f (evalArgs E args st)) := by
+  intro args
+  induction args with
+  | nil => intro st; exact .call
+  | cons a as ih =>
+    intro st
+    have h1 : Eval E (simpleStmt a) st .normal (evalSimple E a st) := by
+      cases a with
+      | none => exact .skip
+      | act x => exact .act
+      | call g => exact .call
+    exact .seqN h1 (ih _)
+
+/-- **args_order_all** — ANY number of arguments, ANY subset of them suspending (each any number of times): when every
+    argument in front of the last blocking one is hoisted into a temporary in source order (utils.go:151-176), the
+    flattened call evaluates every argument exactly once, left to right, and then calls `f` — under every schedule. -/
+theorem args_order_all (E : Env σ) (forget : σ → σ) (hE : EnvStable E forget) (sched : Nat → Nat → σ → Nat)
+    (args : List Simple) (f : Nat) (st : σ) (hst : forget st = st) :
+    RunS E forget sched (flatten (argsBody args f)) (flatten (argsBody args f)) st none false 0
+      (E.call f (evalArgs E args st)) :=
+  flatten_correct E forget hE sched _ (argsBody_eval E f args st) (.inl rfl) hst
+
+/-- hoisting that stops at the FIRST blocking argument leaves a later non-blocking argument `c` inside the final call
+    expression, i.e. after the later blocking argument `y2`: the evaluation order becomes a, y1, y2, c -/
+def hoistStopsAtFirst (a y1 c y2 : Simple) : List Simple := [a, y1, y2, c]
+
+/-- **args_order_first_only_counterexample** — the two orders differ as soon as `c` and `y2` do not commute
+    (here: both append to a trace). -/
+theorem args_order_first_only_counterexample :
+    ∃ (E : Env (List Nat)) (st : List Nat),
+      evalArgs E (hoistStopsAtFirst (.act 0) (.call 1) (.act 2) (.call 3)) st ≠
+      evalArgs E [.act 0, .call 1, .act 2, .call 3] st := by
+  refine ⟨⟨fun a s => s ++ [a], fun _ s => (true, s), fun f s => s ++ [f]⟩, [], ?_⟩
+  decide
+
 /-- **retdefer_exec_sound** is not needed for the theorems; the driver's `runRetF` / `callDefF` mirror `RunRet` / `CallDef`
     clause by clause. -/
 theorem callDefF_sound (D : DEnv σ V) (sched : Nat → Nat → σ → Nat) :
